@@ -24,6 +24,11 @@ FLOOR = {"float64": 1e-4, "float32": 1e-2}
 FLOOR_INV = {"float64": 5e-3, "float32": 5e-2}
 INVERSE_QUERIES = {"root_inv_decomposition", "solve", "logdet", "inv_quad", "inv_quad_logdet", "sqrt_inv_matmul", "inverse", "preconditioner"}
 VACUOUS = 1e-2
+# O6: queries whose algorithm is deterministic, draws no random numbers and reads no cache on the unchanged tree.  The
+# historied object and its fresh twin hold the same data under the same settings, so the two answers must agree directly,
+# also where the error functional is vacuous (a low-rank approximation is "inexact" by design, but it is the same one)
+DIRECT_QUERIES = {"pivoted_cholesky"}
+DIRECT_LIM = {"float64": 1e-3, "float32": 2e-2}
 
 
 class ObjRec:
@@ -721,6 +726,17 @@ class World:
         if fexc is not None:
             self.stat("fresh_raises_hist_ok")
             return
+        if op["q"] in DIRECT_QUERIES and hres.tensors and fres.tensors and bool(torch.isfinite(fres.tensors[0]).all()):
+            self.stat("direct_comparisons")
+            hL, fL = hres.tensors[0].double(), fres.tensors[0].double()
+            dd = world._rel(hL @ hL.mT, fL @ fL.mT) if hL.shape[:-1] == fL.shape[:-1] else float("inf")
+            scale = float(torch.linalg.norm((fL @ fL.mT).reshape(-1))) / max(float(torch.linalg.norm(rec.D.double().reshape(-1))), 1e-30)
+            dd = dd * min(scale, 1.0) if math.isfinite(dd) else dd  # measured relative to the matrix, not to a tiny approximation
+            if not (dd <= DIRECT_LIM[self.dtype]):
+                self.violate("C12", "direct", rec.cls, qsig,
+                             f"step {i}: {label}: the historied object's answer differs from a fresh copy's by {dd:.3g} of the matrix norm "
+                             f"(columns {hL.shape[-1]} vs {fL.shape[-1]}; error functionals {hres.err:.3g} vs {fres.err:.3g}; limit {DIRECT_LIM[self.dtype]:.3g}); {ctx}")
+                return
         if math.isnan(fres.err) or math.isnan(hres.err):
             self.stat("unprobed")
             return
